@@ -139,11 +139,17 @@ func DemosAppDir() (string, bool) {
 
 // NetTimeout 返回网络超时设置
 func NetTimeout() time.Duration {
+	if d := verifNetTimeout(); d > 0 {
+		return d
+	}
 	return time.Second * 45
 }
 
 // NetHeartbeatInterval 返回网络心跳间隔
 func NetHeartbeatInterval() time.Duration {
+	if d := verifHeartbeat(); d > 0 {
+		return d
+	}
 	return time.Second * 30
 }
 
@@ -177,6 +183,9 @@ func HlsEnable() bool {
 
 // HlsFragment TS片段时长（s）
 func HlsFragment() int {
+	if n := verifHlsFragment(); n > 0 {
+		return n
+	}
 	if globalC == nil || globalC.HlsFragment < 5 {
 		return 5
 	}
